@@ -43,9 +43,12 @@ type Op struct {
 	// fill: N leaves fill/e[id=i]/v = "f<Ver>.<i>", 250 per notification; wait: N milliseconds; await: which pause (1-based)
 	// Bulk>0 (fill): Bulk leaves per notification instead of 250 - a device that dumps a whole table in ONE SubscribeResponse
 	// (and does so again whenever it is subscribed to again)
-	N    int `json:"n,omitempty"`
-	Ver  int `json:"ver,omitempty"`
-	Bulk int `json:"bulk,omitempty"`
+	// Enc (fill): "" - the leaves are typed strings; "json" / "ietf" / "bytes": the same text travels in the deprecated
+	// Update.value field with that encoding (a JSON string literal, or the raw bytes)
+	N    int    `json:"n,omitempty"`
+	Ver  int    `json:"ver,omitempty"`
+	Bulk int    `json:"bulk,omitempty"`
+	Enc  string `json:"enc,omitempty"`
 	// break: the target's stream ends - Via "error" (the RPC returns a status), "conn" (the transport is closed),
 	// "rpc" (the collector is asked to reconnect through its Collector service), "silence" (the target - configured
 	// with a receive timeout - sends nothing, heartbeats included, until the collector itself gives the stream up).
@@ -80,10 +83,14 @@ type Addr struct {
 
 // Target is one configured target and its stream.
 type Target struct {
-	Name    string `json:"name"`
-	Server  int    `json:"server"`  // which scripted server address it lives on
-	Request int    `json:"request"` // which request of the configuration it references
-	Ops     []Op   `json:"ops"`
+	Name   string `json:"name"`
+	Server int    `json:"server"` // which scripted server address it lives on
+	// Legacy>0: the device still speaks the old value encoding - that share (percent) of the values it generates travel in
+	// the deprecated Update.value field (gnmi.Value: bytes + encoding JSON / JSON_IETF / BYTES) instead of Update.val.
+	// (Informative: the ops carry the values; kinds "deprecated" = JSON, "legacy-ietf", "legacy-bytes".)
+	Legacy  int  `json:"legacy,omitempty"`
+	Request int  `json:"request"` // which request of the configuration it references
+	Ops     []Op `json:"ops"`
 	// Addrs (none: the live address alone): the addresses the target is configured with, in this order; "live" occurs at least once.
 	Addrs []Addr `json:"addrs,omitempty"`
 	// RecvTimeoutMs>0: the target is configured with meta receive_timeout; the scripted target then sends a heartbeat
@@ -212,6 +219,62 @@ func genVal(t *rapid.T) gn.Val {
 	}
 }
 
+// ---- values in the deprecated Update.value field ("legacy" encoding) ----------------------------------------------
+//
+// gnmi.Update still has field 2, `value` (gnmi.Value: bytes + an Encoding), and devices that predate TypedValue fill
+// it instead of `val`. The client library documents what it makes of it (client/gnmi, func noti): JSON and JSON_IETF
+// payloads are decoded with json.Unmarshal into an `any` (objects: map[string]any, arrays: []any, numbers: float64,
+// null: nil), BYTES payloads are handed over as they are; any other encoding is an error (not generated).
+// Value kinds of this engine: "deprecated" (JSON; the kind internal/gn knows), "legacy-ietf", "legacy-bytes".
+
+func isLegacy(kind string) bool {
+	return kind == "deprecated" || kind == "legacy-ietf" || kind == "legacy-bytes"
+}
+
+// JSON texts a device may put there: objects, arrays, strings, numbers, booleans, null; some with insignificant
+// white space and escapes. No number beyond float64's integer range (what the library makes of it is its business),
+// no string with a line break (the CLI prints one leaf per line).
+var legacyJSON = []string{
+	`{"a":1}`, `{"name":"eth0","up":true,"mtu":1500,"tags":["x","y"],"peer":null}`, `{}`, `{"a": [1, 2],  "b": null}`,
+	`[1,2]`, `[]`, `["a",{"b":[true,null]},1.5]`,
+	`"up"`, `""`, `"h\u00e9llo \"q\""`, `"a b"`, `"12"`,
+	`0`, `-5`, `42`, `1.5`, `1e100`,
+	`true`, `false`, `null`,
+}
+
+// payloads of BYTES values: some look like JSON or like a number - they stay bytes
+var legacyBytes = []string{"\x01\x02", "xyz", `{"a":1}`, "héllo", "12"}
+
+func genLegacyVal(t *rapid.T) gn.Val {
+	switch rapid.IntRange(0, 7).Draw(t, "lkind") {
+	case 0:
+		return gn.Val{Kind: "legacy-bytes", S: rapid.SampledFrom(legacyBytes).Draw(t, "lbytes")}
+	case 1, 2:
+		return gn.Val{Kind: "legacy-ietf", S: rapid.SampledFrom(legacyJSON).Draw(t, "lietf")}
+	default:
+		return gn.Val{Kind: "deprecated", S: rapid.SampledFrom(legacyJSON).Draw(t, "ljson")}
+	}
+}
+
+// jsonShape names what a JSON text is at its top level.
+func jsonShape(s string) string {
+	switch {
+	case s == "":
+		return "empty"
+	case s[0] == '{':
+		return "object"
+	case s[0] == '[':
+		return "array"
+	case s[0] == '"':
+		return "string"
+	case s == "true" || s == "false":
+		return "bool"
+	case s == "null":
+		return "null"
+	}
+	return "number"
+}
+
 // opKey is the index (without target) under which the collector files an update.
 func opKey(o Op) []string {
 	origin := o.Origin
@@ -233,10 +296,85 @@ type tgen struct {
 	serial int      // makes values that must differ from what is stored
 	name   string   // the name the target is configured with
 	peers  []string // the names of the other configured targets
+	legacy int      // percent of its values that travel in the deprecated Update.value field (see Target.Legacy)
 }
 
+// How much of what a device says is in the old encoding: most devices none of it; one that still speaks it does so
+// for most of its leaves (so that legacy values meet on one leaf, in re-sent containers, in coalesced deliveries).
+var legacyShares = []int{0, 0, 0, 0, 0, 60, 85, 100}
+
 func newTgen(t *rapid.T, name string, peers []string) *tgen {
-	return &tgen{t: t, m: newModel(), name: name, peers: peers}
+	return &tgen{t: t, m: newModel(), name: name, peers: peers, legacy: rapid.SampledFrom(legacyShares).Draw(t, "legacy")}
+}
+
+func (g *tgen) speaksLegacy() bool {
+	return g.legacy > 0 && rapid.IntRange(1, 100).Draw(g.t, "aslegacy") <= g.legacy
+}
+
+// val draws a value the way this device encodes values.
+func (g *tgen) val() gn.Val {
+	if g.speaksLegacy() {
+		return genLegacyVal(g.t)
+	}
+	return genVal(g.t)
+}
+
+// distinct makes a value that differs from everything the device said before: the text <prefix><serial> as a typed
+// string, or - from a device that speaks the old encoding - inside a JSON / JSON_IETF / BYTES payload.
+// paddable: only forms that Pad lengthens (string, JSON string literal, bytes).
+func (g *tgen) distinct(prefix string, paddable bool) gn.Val {
+	g.serial++
+	s := fmt.Sprintf("%s%d", prefix, g.serial)
+	if !g.speaksLegacy() {
+		return gn.Val{Kind: "string", S: s}
+	}
+	k := rapid.IntRange(0, 7).Draw(g.t, "dkind")
+	if paddable && k < 3 {
+		k += 3
+	}
+	switch k {
+	case 0:
+		return gn.Val{Kind: "deprecated", S: fmt.Sprintf(`{"v":%q,"n":%d}`, s, g.serial)}
+	case 1:
+		return gn.Val{Kind: "deprecated", S: fmt.Sprintf(`[%q,%d,true,null]`, s, g.serial)}
+	case 2:
+		return gn.Val{Kind: "legacy-ietf", S: fmt.Sprintf(`%d`, g.serial)}
+	case 3:
+		return gn.Val{Kind: "legacy-bytes", S: s}
+	case 4:
+		return gn.Val{Kind: "legacy-ietf", S: fmt.Sprintf("%q", s)}
+	default:
+		return gn.Val{Kind: "deprecated", S: fmt.Sprintf("%q", s)}
+	}
+}
+
+// fillEnc: how this device encodes the leaves of a bulk state.
+func (g *tgen) fillEnc() string {
+	if g.speaksLegacy() {
+		return rapid.SampledFrom([]string{"json", "json", "ietf", "bytes"}).Draw(g.t, "fillenc")
+	}
+	return ""
+}
+
+// rewrite sends the plain leaf stored under k again with a new value (nothing if that is no longer possible).
+func (g *tgen) rewrite(k string, v gn.Val) {
+	o := keyToOp("update", gn.Unkey(k))
+	o.Val = v
+	if u := g.m.units[k]; g.conflict(opKey(o)) || (u != nil && u.Kind == "atomic") {
+		return
+	}
+	g.emit(o)
+}
+
+// plainKeys: the plain leaves the device holds, without the bulk state (fill, bulk) and the harness's tick.
+func (g *tgen) plainKeys() []string {
+	var ks []string
+	for _, k := range g.m.keys() {
+		if p := gn.Unkey(k); g.m.units[k].Kind != "atomic" && len(p) > 1 && p[1] != "fill" && p[1] != "bulk" && p[1] != "tick" {
+			ks = append(ks, k)
+		}
+	}
+	return ks
 }
 
 func (g *tgen) emit(o Op) {
@@ -383,7 +521,7 @@ func (g *tgen) update() {
 		}
 		o = keyToOp("update", gn.Unkey(k))
 	}
-	o.Val = genVal(t)
+	o.Val = g.val()
 	k := opKey(o)
 	if g.conflict(k) {
 		return
@@ -407,7 +545,7 @@ func (g *tgen) ups(base []string, min, max int) []Up {
 	var out []Up
 	var idx [][]string
 	for i := rapid.IntRange(min, max).Draw(t, "nups"); i > 0; i-- {
-		u := Up{Path: genElems(t, 1, 2, false), Val: genVal(t)}
+		u := Up{Path: genElems(t, 1, 2, false), Val: g.val()}
 		k := gn.IndexOfElems(u.Path, false)
 		ok := true
 		for _, p := range idx {
@@ -457,10 +595,9 @@ func (g *tgen) resendAtomic(k string) {
 			odds = 3 // ... the first one rarely: what else a coalesced delivery carries is the point
 		}
 		if rapid.IntRange(0, odds).Draw(t, "achange") == 0 {
-			o.Ups[i].Val = genVal(t)
+			o.Ups[i].Val = g.val()
 			if rapid.Bool().Draw(t, "aserial") {
-				g.serial++
-				o.Ups[i].Val = gn.Val{Kind: "string", S: fmt.Sprintf("v%d", g.serial)}
+				o.Ups[i].Val = g.distinct("v", false)
 			}
 		}
 	}
@@ -476,8 +613,7 @@ func (g *tgen) group() {
 		o.Ups = append([]Up{}, old.Ups...)
 		for i := range o.Ups {
 			if rapid.Bool().Draw(t, "gchange") {
-				g.serial++
-				o.Ups[i].Val = gn.Val{Kind: "string", S: fmt.Sprintf("g%d", g.serial)}
+				o.Ups[i].Val = g.distinct("g", false)
 			}
 			full := opKey(Op{Origin: o.Origin, Prefix: o.Prefix, Path: o.Ups[i].Path})
 			if u := g.m.units[gn.Key(full)]; g.conflict(full) || (u != nil && u.Kind == "atomic") {
@@ -551,7 +687,7 @@ func genTarget(t *rapid.T, i, of, servers, requests int) Target {
 	if syncAt >= n {
 		g.emit(Op{Kind: "sync"})
 	}
-	tg.Ops = g.ops
+	tg.Ops, tg.Legacy = g.ops, g.legacy
 	return tg
 }
 
